@@ -354,6 +354,7 @@ pub fn parse_multi_branch_conditional(
                     had_newline: l.had_newline,
                 }));
                 let mut tmp_index = 0usize;
+                let _nesting = super::NestingGuard::enter()?;
                 let nested_nodes = parse_conditional(&tmp_lines, &mut tmp_index, true, parse_stmt)?;
                 *line_index += tmp_index; // advance by however many lines parse_conditional consumed
                 current_nodes.extend(nested_nodes);
@@ -440,11 +441,20 @@ pub fn parse_multi_branch_conditional(
     ))
 }
 
+/// How many branches a `{ - condition: ... - condition: ... }` block may have.
+const MAX_CONDITIONAL_BRANCHES: usize = 250;
+
 pub fn fold_conditional_branches(
     mut branches: Vec<(Option<crate::ast::Condition>, Vec<Node>)>,
 ) -> Result<Vec<Node>, CompilerError> {
     if branches.is_empty() {
         return Ok(Vec::new());
+    }
+    // Every branch is the `else` of the branch before it, one level deeper.
+    if branches.len() > MAX_CONDITIONAL_BRANCHES {
+        return Err(CompilerError::invalid_source(format!(
+            "too many branches in a conditional block: more than {MAX_CONDITIONAL_BRANCHES}"
+        )));
     }
 
     let mut accumulated_else = None;
